@@ -33,10 +33,10 @@ def generate(rng, idx, tier, variant):
     for ms in subs.values():
         ms['init'] = {nm: [rng.choice(S.DYADS) for _ in range(n)] for nm in ms['endo'] + ms['exo']}
     own_check = rng.choice([['L0'], ['L0'], [], ['L0', 'LX']])
-    spec = {'span': sp, 'subs': subs, 'own': {'endo': ['L0'], 'exo': ['LX'], 'check': own_check}, 'init': {'L0': [rng.choice(S.DYADS) for _ in range(n)], 'LX': [rng.choice(S.DYADS) for _ in range(n)]}}
+    spec = {'span': sp, 'subs': subs, 'dtype': rng.choice(['float'] * 6 + ['float32', 'int']), 'own': {'endo': ['L0'], 'exo': ['LX'], 'check': own_check}, 'init': {'L0': [rng.choice(S.DYADS) for _ in range(n)], 'LX': [rng.choice(S.DYADS) for _ in range(n)]}}
     ops = []
     if rng.random() < 0.12 and n_sub >= 2:
-        ops.append({'op': 'construct-unequal-spans', 'which': rng.choice(IDS[1:n_sub]), 'how': rng.choice(['longer', 'shifted', 'other-labels', 'permuted', 'repeated'])})
+        ops.append({'op': 'construct-unequal-spans', 'which': rng.choice(IDS[1:n_sub]), 'how': rng.choice(['longer', 'shifted', 'other-labels', 'permuted', 'repeated', 'array-partial', 'array-partial'])})
     for _ in range(rng.choice([1, 1, 2, 3])):
         opts = S.gen_opts(rng, False)
         opts['errors'] = 'raise'
@@ -181,10 +181,12 @@ def build(fsic, spec):
         cls = probes.make_scripted(fsic, ms)
         subs[sid] = probes.new_scripted_instance(cls, spans.make_span(spec['span']), ms['init'])
     LC = make_linker_class(fsic, spec['own'])
+    dt = {'float': float, 'float32': np.float32, 'int': int}[spec.get('dtype', 'float')]
+    kw = {} if dt is float else {'dtype': dt}  # the dtype of the linker's own variables; submodels keep theirs
     if subs:
-        L = LC(subs)
+        L = LC(subs, **kw)
     else:
-        L = LC(subs, span=spans.make_span(spec['span']))
+        L = LC(subs, span=spans.make_span(spec['span']), **kw)
     for nm, vals in spec['init'].items():
         L.__dict__['_' + nm][:] = vals
     probes.attach_ctl(L)
@@ -245,18 +247,37 @@ def execute(schedule, ctx):
                     # a list against a range is a different kind of span anyway; compare like with like
                     continue
             ms = spec['subs'][op['which']]
+            array_like = op['how'] == 'array-partial'
+            if array_like:
+                # NumPy / pandas spans of equal length that agree in some positions and differ in others
+                if n < 2:
+                    continue
+                kind_ = ['np_int', 'pd_index_int', 'np_str'][step % 3]
+                base_spec = dict(spec['span'], type=kind_)
+                items = spans.elements(spans.make_span(base_spec))
+                items[-1] = items[-1] + 1000 if not isinstance(items[-1], str) else 'zzz'
+                if kind_.startswith('np'):
+                    other_span = np.array(items)
+                else:
+                    import pandas as pd
+
+                    other_span = pd.Index(items)
             other = probes.make_scripted(fsic, ms)(other_span)
             probes.attach_ctl(other)
             parts = {}
             for sid in ids:
-                parts[sid] = other if sid == op['which'] else probes.make_scripted(fsic, spec['subs'][sid])(spans.make_span(spec['span']))
+                parts[sid] = other if sid == op['which'] else probes.make_scripted(fsic, spec['subs'][sid])(spans.make_span(base_spec if array_like else spec['span']))
             try:
                 LC(parts)
                 e = None
             except Exception as ex:
                 e = ex
-            ctx.probe('unequal-spans')
-            chk('construction/unequal-spans-rejected', type(e).__name__ == 'InitialisationError', {'exc': type(e).__name__ if e else None, 'how': op['how']})
+            ctx.probe('unequal-spans:' + op['how'])
+            if array_like:
+                # any rejection will do for array-like spans (their element-wise comparison has no single truth value)
+                chk('construction/unequal-array-spans-rejected', e is not None, {'exc': None, 'how': op['how'], 'span': kind_})
+            else:
+                chk('construction/unequal-spans-rejected', type(e).__name__ == 'InitialisationError', {'exc': type(e).__name__ if e else None, 'how': op['how']})
             ctx.outcome(kind, type(e).__name__ if e else 'accepted')
             ctx.log(step, kind, type(e).__name__ if e else None)
             continue
